@@ -45,6 +45,8 @@ mod iterator_as_exact_size_iterator;
 mod offset_arc;
 mod thin_arc;
 mod unique_arc;
+#[cfg(triomphe_verif)]
+pub mod verif_hook;
 
 pub use arc::*;
 pub use arc_borrow::*;
